@@ -1,7 +1,6 @@
 import Eav.Model
 import Eav.Props.C01
 import Eav.Props.C07
-import Eav.Props.C08
 import Eav.Props.C09
 /-!
 # C07, seen from `check_tld` and from `eav_is_email`
